@@ -13,13 +13,14 @@ def intStr (i : Int) : Str :=
   | .ofNat n => natStr n
   | .negSucc n => '-' :: natStr (n + 1)
 
-def isDigit (c : Char) : Bool := '0' ≤ c && c ≤ '9'
+/-- ASCII digit (core's `Char.isDigit`, so that the `Nat.toDigits` lemmas of core apply). -/
+def isDigit (c : Char) : Bool := c.isDigit
 
 def digitVal (c : Char) : Nat := c.toNat - '0'.toNat
 
-def digitsVal : Str → Nat → Nat
-  | [], acc => acc
-  | c :: cs, acc => digitsVal cs (acc * 10 + digitVal c)
+/-- Value of a digit string continuing from `acc` (core's `Nat.ofDigitChars 10`, for which
+    `Nat.ofDigitChars_ten_toDigits : ofDigitChars 10 (toDigits 10 n) 0 = n` is a library theorem). -/
+def digitsVal (s : Str) (acc : Nat) : Nat := Nat.ofDigitChars 10 s acc
 
 /-- Non-empty, all ASCII digits. -/
 def allDigits (s : Str) : Bool := !s.isEmpty && s.all isDigit
